@@ -409,7 +409,7 @@ def run(ctx):
             jobs[cfg] = pool.submit(_tlc_retry, ctx, "MHKernel", cfg=cfg, workers=2, expect_violation=True)
         if tier == "thorough":
             jobs["sim"] = pool.submit(_tlc_retry, ctx, "MHKernel", cfg="MHKernel.sim.thorough.cfg", workers=4, mode="simulate",
-                                      simulate="num=6000", depth=40, seed=1000 + ctx.seed, timeout=3000)
+                                      simulate="num=700", depth=40, seed=1000 + ctx.seed, timeout=3000)
         res = {k: f.result() for k, f in jobs.items()}
     try:
         ctx.model_must_hold(res["main"], "MHKernel")
@@ -437,7 +437,7 @@ def run(ctx):
         if not behs or not roots:
             raise MachineryError("no behaviours emitted by MHKernel")
         # 2. spec -> code
-        limit = 4500 if tier == "quick" else 60000
+        limit = None if tier == "quick" else 150000
         chosen = replay_facet(ctx, roots, behs, limit)
         mid = chosen[len(chosen) // 2]
         ctx.sample({"behaviour": {"cfg": mid["cfg"], "prog": mid["prog"][:4]}})
@@ -456,8 +456,8 @@ def run(ctx):
     ctx.rule = ("behaviour = one terminal path of the bounded MHKernel instance (configuration x initial point x sequence of "
                 "Propose/Decide/Tune/SaveLoad) emitted by TLC with exact noise, ratio and predicted states; replayed per realisation "
                 "(quick: edge cover + seeded sample of %d; thorough: all + simulated deep behaviours); distinct = behaviour x realisation; "
-                "plus recorded traces" % limit)
-    ctx.exhaustive = False
+                "plus recorded traces" % (limit or len(behs)))
+    ctx.exhaustive = limit is None or len(behs) <= limit      # every behaviour of the bounded emission instance was replayed
     ctx.assumptions += ["acceptance thresholds are placed 1e-6 (relative) below / above exp(r): a ratio error below 1e-6 is not detected",
                         "table targets on finite lattices; off-lattice evaluations use a smooth finite fallback",
                         "trace facets compare caches with a fresh evaluation of the sampler's own target (rtol 1e-10)"]
